@@ -1,8 +1,56 @@
-import Rbp.Model.Walk
+import Rbp.Proofs.Index
+/-!
+# C04 — only active-chain blocks are delivered; stale and header-only records never are
+Stated for the index as the repaired code builds it (records with data and no FAILED bit, keyed by hash; tip = highest
+fully validated record; prev-hash links followed from the tip).
+-/
 namespace Rbp.Props.C04
-/-- placeholder until the bridge to `Run.buildIndex` is written: walking prev-links from the tip of a well-formed chain yields the chain, top down -/
-theorem walk_eq_active (A : Nat → Wk.Rec) (k : Nat) (l : List Wk.Rec) (fuel : Nat)
-    (hnd : (l.map (·.hash)).Nodup) (hc : Wk.Chain A k l) (hf : k < fuel) :
-    Wk.walk fuel l (A k).hash = (List.range (k + 1)).reverse.map A :=
-  Wk.walk_chain A k l fuel hnd hc hf
+open Run Wk
+
+/-- walking prev-links from the tip of a well-formed chain through a table with pairwise distinct hashes yields exactly the
+    chain, top down, whatever other records (stale siblings, failed blocks, reorged-out branches, …) the table holds -/
+theorem walk_eq_active (A : Nat → Rec) (k : Nat) (l : List Rec) (fuel : Nat)
+    (hnd : (l.map (·.hash)).Nodup) (hc : Chain A k l) (hf : k < fuel) :
+    walk fuel l (A k).hash = (List.range (k + 1)).reverse.map A :=
+  walk_chain A k l fuel hnd hc hf
+
+/-- the index that `get_block_index` builds maps exactly the heights `0..T` to the active chain: for every table of
+    collected records that contains the chain `A 0 … A T` (linked by prev-hash, record `k` at height `k`, root's parent not a
+    key), whose tip is fully validated and above every other fully validated record -/
+theorem index_is_active_chain (kvs : List (W.Bytes × W.Bytes)) (recs : List Rec) (A : Nat → Rec) (T : Nat)
+    (hc : collect kvs = .ok recs) (hchain : Chain A T recs) (hh : ∀ k, k ≤ T → (A k).height = k)
+    (hv : validScripts (A T) = true) (hcomp : ∀ r ∈ recs, validScripts r = true → r = A T ∨ r.height < T) :
+    ∃ idx, buildIndex kvs = .ok idx ∧ ∀ h, lookup idx h = if h ≤ T then some (A h) else none :=
+  buildIndex_active kvs recs A T hc hchain hh hv hcomp
+
+/-- competitors are invisible: two key/value sets whose collected tables contain the same active chain (and meet the
+    hypotheses) give indexes that answer every height identically — adding or removing header-only, stale, failed or
+    reorged-out records, in any key order, changes nothing -/
+theorem competitors_invisible (kvs₁ kvs₂ : List (W.Bytes × W.Bytes)) (r₁ r₂ : List Rec) (A : Nat → Rec) (T : Nat)
+    (h₁ : collect kvs₁ = .ok r₁) (h₂ : collect kvs₂ = .ok r₂) (c₁ : Chain A T r₁) (c₂ : Chain A T r₂)
+    (hh : ∀ k, k ≤ T → (A k).height = k) (hv : validScripts (A T) = true)
+    (p₁ : ∀ r ∈ r₁, validScripts r = true → r = A T ∨ r.height < T)
+    (p₂ : ∀ r ∈ r₂, validScripts r = true → r = A T ∨ r.height < T) :
+    ∃ i₁ i₂, buildIndex kvs₁ = .ok i₁ ∧ buildIndex kvs₂ = .ok i₂ ∧ ∀ h, lookup i₁ h = lookup i₂ h := by
+  obtain ⟨i₁, e₁, l₁⟩ := buildIndex_active kvs₁ r₁ A T h₁ c₁ hh hv p₁
+  obtain ⟨i₂, e₂, l₂⟩ := buildIndex_active kvs₂ r₂ A T h₂ c₂ hh hv p₂
+  exact ⟨i₁, i₂, e₁, e₂, fun h => by rw [l₁, l₂]⟩
+
+/-- records without block data or with a FAILED bit never enter the table: the status filter, stated outright -/
+theorem filter_spec (r : Rec) : passes r = true ↔ (r.status &&& 8 > 0 ∧ r.status &&& 96 = 0) := by
+  simp [passes]
+
+/-- the table has pairwise distinct hashes (a later equal key replaces) -/
+theorem table_distinct (kvs : List (W.Bytes × W.Bytes)) (recs : List Rec) (hc : collect kvs = .ok recs) :
+    (recs.map (·.hash)).Nodup := collect_nodup kvs recs hc
+
+/-- the walk visits at most as many records as the table holds (visited records are removed): it terminates -/
+theorem walk_bounded : ∀ (fuel : Nat) (l : List Rec) (h : Hash), (walk fuel l h).length ≤ fuel
+  | 0, _, _ => by simp [walk]
+  | fuel+1, l, h => by
+    unfold walk
+    cases find l h with
+    | none => simp
+    | some r => simp; exact walk_bounded fuel _ _
+
 end Rbp.Props.C04
